@@ -77,9 +77,28 @@ bool prop_run(Tape &t, Report &r) {
     if ((ov_seekable(&vf) != 0) != (path == 0)) { ov_clear(&vf); return r.fail("ov_seekable=%ld (%s) [%s]", ov_seekable(&vf), pd.c_str(), desc.c_str()); }
     std::vector<PCM> pl; std::vector<long> neg;
     int lastbs = -1; int64_t got = 0; bool fail = false; std::string why;
+    bool intread = t.chance(1, 3); if (intread) { r.label("ov_read (integer) path"); pd += " ov_read"; }
+    std::vector<char> ibuf(20000);
     for (;;) {
       float **pcm; int bs = -7; int req = reqmode == 0 ? 4096 : reqmode == 1 ? 1 + (int)rq.below(8192) : 1 + (int)rq.below(40);
-      long n = ov_read_float(&vf, &pcm, req, &bs);
+      long n;
+      if (intread) {
+        int chn = ov_info(&vf, -1) ? ov_info(&vf, -1)->channels : 1;   // channels of the link the handle is in before the call (may change inside it)
+        int len = req * 2; if (len < 2 * 8) len = 2 * 8;                 // at least one frame for any generated channel count
+        n = ov_read(&vf, ibuf.data(), len, 0, 2, 1, &bs);
+        if (n == 0) break;
+        if (n < 0) { why = sfmt("ov_read returned %ld after %lld samples", n, (long long)got); fail = true; break; }
+        if (n > len) { why = sfmt("ov_read returned %ld > buffer %d", n, len); fail = true; break; }
+        if (bs < lastbs || bs < 0 || (size_t)bs >= k) { why = sfmt("*bitstream %d after %d", bs, lastbs); fail = true; break; }
+        lastbs = bs; int ch = c.links[bs].channels; (void)chn;
+        if (n % (2 * ch)) { why = sfmt("ov_read returned %ld bytes in link %d with %d channels: not whole frames", n, bs, ch); fail = true; break; }
+        long frames = n / (2 * ch);
+        if ((size_t)bs >= pl.size()) pl.resize(bs + 1);
+        if (pl[bs].empty()) pl[bs].assign(ch, {});
+        for (long i = 0; i < frames; i++) for (int q = 0; q < ch; q++) { int16_t v; memcpy(&v, &ibuf[(size_t)(i * ch + q) * 2], 2); pl[bs][q].push_back((float)v); }
+        got += frames; continue;
+      }
+      n = ov_read_float(&vf, &pcm, req, &bs);
       if (n == 0) break;
       if (n < 0) { why = sfmt("ov_read_float returned %ld after %lld samples", n, (long long)got); fail = true; break; }
       if (n > req) { why = sfmt("returned %ld > requested %d", n, req); fail = true; break; }
@@ -99,7 +118,13 @@ bool prop_run(Tape &t, Report &r) {
     for (size_t i = 0; i < k; i++) {
       if (g.len[i] == 0) { if (i < pl.size() && !pl[i].empty() && !pl[i][0].empty()) return r.fail("zero-sample link %zu delivered audio (%s) [%s]", i, pd.c_str(), desc.c_str()); continue; }
       if (i >= pl.size()) return r.fail("link %zu never delivered (%s) [%s]", i, pd.c_str(), desc.c_str());
-      std::string w2; if (!pcm_equal(pl[i], g.pcm[i], &w2)) return r.fail("link %zu differs from packet-level decode: %s (%s) [%s]", i, w2.c_str(), pd.c_str(), desc.c_str());
+      std::string w2;
+      if (intread) {   // integer path: the expected words are the rounded, clipped floats of the packet-level decode
+        PCM want = g.pcm[i]; for (auto &chv : want) for (auto &x : chv) x = (float)expect_i16(x);
+        if (!pcm_equal(pl[i], want, &w2)) return r.fail("link %zu (ov_read, 16-bit) differs from the converted packet-level decode: %s (%s) [%s]", i, w2.c_str(), pd.c_str(), desc.c_str());
+        continue;
+      }
+      if (!pcm_equal(pl[i], g.pcm[i], &w2)) return r.fail("link %zu differs from packet-level decode: %s (%s) [%s]", i, w2.c_str(), pd.c_str(), desc.c_str());
     }
   }
   // --- packet API through ogg_sync in chunks
